@@ -62,12 +62,17 @@ func stdScript(c *vf.Chooser) func(s *refsmtp.Session, ev *refsmtp.Event, def re
 
 // stdScriptM is stdScript plus two alternatives: the success reply spread over several lines (RFC 5321 4.2.1) and
 // a 421 reply followed by a disconnect (RFC 5321 3.8).
-func stdScriptM(c *vf.Chooser) func(s *refsmtp.Session, ev *refsmtp.Event, def refsmtp.Action) refsmtp.Action {
-	return func(s *refsmtp.Session, ev *refsmtp.Event, def refsmtp.Action) refsmtp.Action {
+func stdScriptM(c *vf.Chooser) func(s *refsmtp.Session, ev *refsmtp.Event, def refsmtp.Action, preset ...int) refsmtp.Action {
+	return func(s *refsmtp.Session, ev *refsmtp.Event, def refsmtp.Action, preset ...int) refsmtp.Action {
 		if def.Kind != refsmtp.ActReply {
 			return def
 		}
-		pick := c.Choose(ev.Pos(), 6)
+		var pick int
+		if len(preset) > 0 {
+			pick = preset[0]
+		} else {
+			pick = c.Choose(ev.Pos(), 6)
+		}
 		switch pick {
 		case 4:
 			if ev.Verb == "EHLO" {
@@ -82,6 +87,29 @@ func stdScriptM(c *vf.Chooser) func(s *refsmtp.Session, ev *refsmtp.Event, def r
 			return replyAction(6, ev, def, nil)
 		}
 		return replyAction(pick, ev, def, nil)
+	}
+}
+
+// stdScriptL is stdScriptM plus a seventh alternative: the expected reply, but LATE — the server processes the
+// command and answers only after the client's read has run into its deadline (not offered inside TLS and not for
+// the reply that starts TLS: the late bytes would have to travel through the TLS layer).
+func stdScriptL(c *vf.Chooser) func(s *refsmtp.Session, ev *refsmtp.Event, def refsmtp.Action) refsmtp.Action {
+	m := stdScriptM(nil)
+	return func(s *refsmtp.Session, ev *refsmtp.Event, def refsmtp.Action) refsmtp.Action {
+		if def.Kind != refsmtp.ActReply {
+			return def
+		}
+		n := 7
+		if s.InTLS || ev.Verb == "STARTTLS" {
+			n = 6
+		}
+		pick := c.Choose(ev.Pos(), n)
+		if pick == 6 {
+			a := def
+			a.Late = true
+			return a
+		}
+		return m(s, ev, def, pick)
 	}
 }
 
@@ -150,6 +178,8 @@ func describeReplyChoiceM(label string, pick int) string {
 		return label + "=ok(multi-line)"
 	case 5:
 		return label + "=421-then-disconnect"
+	case 6:
+		return label + "=ok-but-late(after the client's read timed out)"
 	}
 	return describeReplyChoice(label, pick)
 }
@@ -193,7 +223,7 @@ func c04Exec(r *vf.Run, cfg c04Cfg, c *vf.Chooser) (keys []string, whats []strin
 	sess := &refsmtp.Session{Host: hx.Host, Caps: capsFromMask(cfg.Caps)}
 	// after STARTTLS a *different* capability set is advertised: the three MAIL-parameter extensions are inverted
 	sess.CapsTLS = append([]string{}, capsFromMask((cfg.Caps^0b000111)&^(1<<4))...) // non-nil: an EMPTY set after STARTTLS is a single-line 250
-	sess.Script = stdScriptM(c)
+	sess.Script = stdScriptL(c)
 	sess.NewAuth = func(s *refsmtp.Session, mech string) refsmtp.AuthExchange {
 		if mech == "PLAIN" {
 			return plainAuthSrv{"user", "secret-pass"}
